@@ -162,6 +162,9 @@ func lockFunctionLevel(r *core.Run, kind string, rep int) {
 			if kind == "HTLC" {
 				c.Data = hv
 			}
+			if ci%2 == 1 {
+				c.TagOrder = int64(1 + rng.Intn(1000)) // tag order carries no meaning
+			}
 			secret := c.Secret()
 			for _, class := range witnessClasses {
 				for pc, pv := range preClasses {
@@ -261,6 +264,9 @@ func lockMintLevel(r *core.Run, kind, id string) {
 		for i := w; i < n; i += workers {
 			c := cfgs[rng.Intn(len(cfgs))]
 			c.Nonce = client.RandHex(rng, 16)
+			if rng.Intn(2) == 0 {
+				c.TagOrder = int64(1 + rng.Intn(1000))
+			}
 			// SIG_ALL cases are the interesting ones at mint level: bias towards them
 			if rng.Intn(2) == 0 {
 				c.Sigflag = "SIG_ALL"
@@ -276,7 +282,10 @@ func lockMintLevel(r *core.Run, kind, id string) {
 				nplainBefore, nplainAfter = 0, 0
 			}
 			twoLocked := rng.Intn(5) == 0
-			outMode := []string{"unsigned", "helper", "threshold", "partly", "wrong-key"}[rng.Intn(5)]
+			outMode := []string{"unsigned", "helper", "threshold", "partly", "wrong-key", "first-only", "later-preimage-bad"}[rng.Intn(7)]
+			if outMode == "later-preimage-bad" && kind != "HTLC" {
+				outMode = "first-only"
+			}
 			path := "swap"
 			if rng.Intn(6) == 0 {
 				path = "melt"
@@ -289,6 +298,32 @@ func lockMintLevel(r *core.Run, kind, id string) {
 				pos = "last"
 			case nplainAfter > 0:
 				pos = "first"
+			}
+			if (i/workers)%3 == 0 {
+				// directed slice: properly authorised SIG_ALL inputs that share one condition,
+				// so that the verdict depends on the outputs alone
+				for tries := 0; tries < 50; tries++ {
+					c = cfgs[rng.Intn(len(cfgs))]
+					need := maxInt(c.NSigs, 1)
+					avail := len(c.Pubkeys)
+					if kind == "P2PK" {
+						avail++
+					}
+					if !c.expired() && avail >= need && !(kind == "P2PK" && c.NSigs > 0 && len(c.Pubkeys) == 0) {
+						break
+					}
+				}
+				c.Nonce = client.RandHex(rng, 16)
+				c.Sigflag = "SIG_ALL"
+				c.TagOrder = int64(rng.Intn(3))
+				class, helper = "threshold-distinct", false
+				nplainBefore, nplainAfter, pos = 0, 0, "alone"
+				twoLocked = rng.Intn(4) == 0
+				path = "swap"
+				outMode = []string{"unsigned", "helper", "threshold", "partly", "wrong-key", "first-only", "later-preimage-bad"}[(i/workers/3)%7]
+				if outMode == "later-preimage-bad" && kind != "HTLC" {
+					outMode = "first-only"
+				}
 			}
 			sig := fmt.Sprintf("mint/%s/%s/%s/%s/%s/out=%s/%s/two=%v/%d", kind, cfgShape(c), c.Sigflag, class, pos, outMode, path, twoLocked, i)
 			if !r.Want(sig) {
@@ -432,7 +467,9 @@ func lockMintLevel(r *core.Run, kind, id string) {
 				continue
 			}
 			// ---- outputs
-			outs := client.Outputs(rng, act.Id, client.Split(total))
+			// several outputs, so that "every output" is a real quantifier
+			oamts := append(client.Split(total-1), 1)
+			outs := client.Outputs(rng, act.Id, oamts)
 			bms := client.BMs(outs)
 			oc := c
 			if first != nil {
@@ -492,6 +529,29 @@ func lockMintLevel(r *core.Run, kind, id string) {
 			case "wrong-key":
 				for k := range bms {
 					bms[k] = signOut(bms[k], []*btcec.PrivateKey{lk.F})
+				}
+			case "first-only":
+				ks := pool
+				if len(ks) > need {
+					ks = ks[:need]
+				}
+				bms[0] = signOut(bms[0], ks)
+			case "later-preimage-bad":
+				// every output is signed; only the first carries the right preimage
+				for k := range bms {
+					ks := pool
+					if len(ks) > need {
+						ks = ks[:need]
+					}
+					bms[k] = signOut(bms[k], ks)
+					if k > 0 {
+						bad := []string{strings.Repeat("ef", 32), "", "zz"}[rng.Intn(3)]
+						var specs []sigSpec
+						for _, kk := range ks {
+							specs = append(specs, sigSpec{key: kk})
+						}
+						bms[k].Witness = buildWitness(mustHex(bms[k].B_), specs, &bad, false)
+					}
 				}
 			}
 			outsAuth := true
